@@ -91,6 +91,13 @@ class Fork(Exception):
     pass
 
 
+class Closure:
+    """a local lambda: operator() body + the enclosing frame (by-reference captures)"""
+
+    def __init__(self, op_id, params, body, env):
+        self.op_id, self.params, self.body, self.env = op_id, params, body, env
+
+
 class ReturnEx(Exception):
     def __init__(self, v):
         self.v = v
@@ -430,6 +437,12 @@ class Interp:
         t = n["type"]
         init = [c for c in n.get("inner", []) if c.get("kind") and not c["kind"].endswith("Attr")]
         raw = norm_type(t.get("desugaredQualType", t["qualType"]))
+        lam = init[0] if init else None
+        while lam is not None and lam.get("kind") in ("ExprWithCleanups", "ImplicitCastExpr", "MaterializeTemporaryExpr", "CXXBindTemporaryExpr", "CXXConstructExpr") and len(lam.get("inner", [])) == 1:
+            lam = lam["inner"][0]
+        if lam is not None and lam.get("kind") == "LambdaExpr":
+            env[n["id"]] = self.x_LambdaExpr(lam, env)
+            return
         isref = raw.rstrip().endswith("&")
         if isref:
             env[n["id"]] = self.ev(init[0], env)
@@ -868,6 +881,49 @@ class Interp:
             return self.call(f, None, self.eval_args(f, args, env))
         fp = self.rv(self.ev(callee, env))
         return self.dom.call_pointer(self, fp, [self.rv(self.ev(a, env)) for a in args])
+
+    def x_LambdaExpr(self, n, env):
+        """closure of a local lambda.  Only by-reference captures ([&] or [&x]) are modelled: the closure shares the enclosing frame's cells;
+        anything captured by copy, init-captures and generic lambdas abort the extraction"""
+        rec = [c for c in n.get("inner", []) if c.get("kind") == "CXXRecordDecl"]
+        body = [c for c in n.get("inner", []) if c.get("kind") == "CompoundStmt"]
+        if len(rec) != 1 or not body:
+            raise SymxError("lambda expression shape")
+        ops = [c for c in rec[0].get("inner", []) if c.get("kind") == "CXXMethodDecl" and c.get("name") == "operator()"]
+        if len(ops) != 1:
+            raise SymxError("lambda without a unique operator()")
+        for c in rec[0].get("inner", []):
+            if c.get("kind") == "FieldDecl" and not c.get("type", {}).get("qualType", "").rstrip().endswith("&"):
+                raise SymxError("lambda captures %s by copy" % c.get("type", {}).get("qualType"))
+        params = [c for c in ops[0].get("inner", []) if c.get("kind") == "ParmVarDecl"]
+        return Closure(ops[0]["id"], params, body[-1], env)
+
+    def call_closure(self, cl, argnodes, env):
+        self.depth += 1
+        if self.depth > 60:
+            raise SymxError("call depth")
+        try:
+            frame = dict(cl.env)                # by-reference capture: the same cells / objects as the enclosing frame
+            for p, a in zip(cl.params, argnodes):
+                frame[p["id"]] = self.bind_arg(p["type"].get("desugaredQualType", p["type"]["qualType"]), a, env)
+            try:
+                self.exec(cl.body, frame)
+                return None
+            except ReturnEx as r:
+                return r.v
+        finally:
+            self.depth -= 1
+
+    def x_CXXOperatorCallExpr(self, n, env):
+        callee, args = n["inner"][0], n["inner"][1:]
+        c = callee
+        while c["kind"] in ("ImplicitCastExpr", "ParenExpr"):
+            c = c["inner"][0]
+        if c["kind"] == "DeclRefExpr" and c["referencedDecl"].get("name") == "operator()" and args:
+            obj = self.ev(args[0], env)
+            if isinstance(obj, Closure) and obj.op_id == c["referencedDecl"]["id"]:
+                return self.call_closure(obj, args[1:], env)
+        raise SymxError("overloaded operator call " + str(c.get("referencedDecl", {}).get("name")))
 
     def x_CXXMemberCallExpr(self, n, env):
         me, args = n["inner"][0], n["inner"][1:]
